@@ -722,8 +722,33 @@ class Engine:
     def e_Starred(self, e, env):
         raise OutOfSubset("starred expression outside call at line %s" % e.lineno)
 
+    def _log_args_safety(self, e, env):
+        """A-LOG says a logging call has no effect on the computation -- but its arguments are evaluated eagerly and may
+        raise.  Subscripts over plain names / attributes / constants inside the arguments (f-strings included) are therefore
+        evaluated for their safety obligations (KeyError, IndexError, attribute of None); values are discarded, and
+        sub-expressions the contract cannot model are skipped as before."""
+        done = set()
+        for node in ast.walk(e):
+            if not isinstance(node, ast.Subscript) or id(node) in done:
+                continue
+            inner = list(ast.walk(node))
+            if any(isinstance(n, (ast.Call, ast.Lambda, ast.ListComp, ast.SetComp, ast.DictComp, ast.GeneratorExp, ast.Await, ast.Yield, ast.NamedExpr)) for n in inner):
+                continue
+            done.update(id(n) for n in inner)
+            n_ob = len(self.st.obligations) if hasattr(self.st, "obligations") else None
+            try:
+                self.eval(node, env)
+            except OutOfSubset:
+                pass
+            except (_Raise, _PathEnd):
+                raise
+            except Exception:
+                pass
+
     def e_Call(self, e, env):
         if self.is_log_call(e):
+            for a in list(e.args) + [k.value for k in e.keywords]:
+                self._log_args_safety(a, env)
             return None
         f = self.eval(e.func, env)
         args = []
